@@ -6,6 +6,7 @@ package router
 // compared with a reference framer.
 
 import (
+	"bytes"
 	"fmt"
 	"sort"
 	"strings"
@@ -18,9 +19,18 @@ import (
 	"github.com/IrineSistiana/mosproxy/internal/zzverif/report"
 )
 
+// c13Inner is a complete, well-formed frame carried *inside* the body of every query but the first (as the payload of an EDNS
+// padding option). A listener that loses track of frame boundaries at a cut placed right in front of it would decode it as a query
+// of its own; its id (0x4242) is one no client ever sent.
+var c13Inner = refdns.Frame(refdns.Query(0x4242, refdns.N("inner", "test"), 1, 1).Encode(false))
+
 func c13Query(i int) *refdns.Msg {
 	n := refdns.N(fmt.Sprintf("q%d%s", i, strings.Repeat("x", i*7)), "example", "test")
-	return refdns.Query(uint16(0x1300+i), n, 1, 1)
+	q := refdns.Query(uint16(0x1300+i), n, 1, 1)
+	if i >= 1 {
+		q.Ar = []refdns.RR{refdns.OPT(1232, 0, refdns.Option(12, c13Inner))}
+	}
+	return q
 }
 
 // candidate cut positions inside a stream of frames (absolute offsets, exclusive of 0 and len)
@@ -29,9 +39,13 @@ func c13Cuts(frames [][]byte, rich bool) []int {
 	off := 0
 	for i, f := range frames {
 		body := len(f) - 2
-		cand := []int{1, 2 + body/2}
+		mid := 2 + body/2
+		if e := bytes.Index(f, c13Inner); e > 2 {
+			mid = e // "mid body" is the spot right in front of the embedded frame
+		}
+		cand := []int{1, mid}
 		if rich {
-			cand = []int{1, 2, 3, 2 + body/2, len(f) - 1}
+			cand = []int{1, 2, 3, mid, len(f) - 1}
 		}
 		for _, c := range cand {
 			cuts = append(cuts, off+c)
@@ -108,11 +122,21 @@ func c13Scenario(c *choice.Ctx, rep *report.R, minK, maxK int, rich bool, fullSe
 	perms := c13Perms(accepted)
 	perm := perms[c.Choose(len(perms), "completion-order")]
 	stallWrites := kind == "tcp" && accepted >= 2 && c.Choose(2, "park-writes") == 1
+	// an earlier connection of the same listener sent a length prefix and part of a body and went away: nothing of it may leak
+	// into this connection (recycled per-connection state)
+	prevConn := c.Choose(2, "previous-connection-left-a-partial-frame") == 1
+	// the client pauses for longer than the idle timeout between two segments while its earlier queries are still being handled:
+	// the listener may close the connection, but whatever it sends stays well-formed and answers only queries that were sent
+	pause := kind == "tcp" && !stallWrites && len(segs) >= 2 && k >= 2 && c.Choose(2, "pause-longer-than-idle-timeout") == 1
+	idleTO := 100 * time.Second
+	if pause {
+		idleTO = 2 * time.Second
+	}
 	var segLens []int
 	for _, s := range segs {
 		segLens = append(segLens, len(s))
 	}
-	desc := fmt.Sprintf("listener=%s k=%d limit=%d segments=%v completion=%v parkWrites=%v", kind, k, limit, segLens, perm, stallWrites)
+	desc := fmt.Sprintf("listener=%s k=%d limit=%d segments=%v completion=%v parkWrites=%v previousConnPartialFrame=%v pause>idle=%v", kind, k, limit, segLens, perm, stallWrites, prevConn, pause)
 	fail := func(sig, msg string) {
 		rep.Violate("C13:"+kind+":"+sig, msg+"\n  "+desc, map[string]any{"Choices": c.Choices()})
 	}
@@ -126,9 +150,18 @@ func c13Scenario(c *choice.Ctx, rep *report.R, minK, maxK int, rich bool, fullSe
 	var send func(seg []byte)
 	var written func() []byte
 	var tcpImpl *env.End
+	partial := []byte{0, 40, 0x13, 0x99, 1, 0, 0}
 	switch kind {
 	case "tcp":
-		sc := v.tcpClient(v.newTCPServer(limit, 100*time.Second), vClientV4, vLocalV4)
+		srv := v.newTCPServer(limit, idleTO)
+		if prevConn {
+			p0 := v.tcpClient(srv, vClientV4, vLocalV4)
+			p0.Send(partial)
+			wait()
+			p0.Close()
+			wait()
+		}
+		sc := v.tcpClient(srv, vClientV4, vLocalV4)
 		tcpImpl = sc.impl
 		if stallWrites {
 			sc.impl.StallEach()
@@ -136,17 +169,30 @@ func c13Scenario(c *choice.Ctx, rep *report.R, minK, maxK int, rich bool, fullSe
 		send = func(seg []byte) { sc.Send(seg) }
 		written = func() []byte { return sc.impl.Written() }
 	default:
-		g := v.gnetClient(v.newGnetServer(limit, 100*time.Second), vClientV4, vLocalV4)
+		gsrv := v.newGnetServer(limit, 100*time.Second)
+		if prevConn {
+			g0 := v.gnetClient(gsrv, vClientV4, vLocalV4)
+			g0.Send(partial)
+			wait()
+			g0.Close()
+			wait()
+			g0.Stop()
+		}
+		g := v.gnetClient(gsrv, vClientV4, vLocalV4)
 		send = func(seg []byte) { g.Send(seg) }
 		written = g.Written
 	}
-	for _, s := range segs {
+	for i, s := range segs {
+		if pause && i == len(segs)-1 {
+			hsleep(3 * time.Second)
+			wait()
+		}
 		send(s)
 		wait()
 	}
 	// every frame must have been decoded exactly once: accepted ones are at the upstream, the surplus refused
 	pend := u.Pending()
-	if len(u.Queries()) != accepted {
+	if len(u.Queries()) != accepted && !pause {
 		fail("decode-count", fmt.Sprintf("%d queries reached the upstream, expected %d of %d frames (limit %d)", len(u.Queries()), accepted, k, limit))
 	}
 	// the upstream answers in the chosen order
@@ -186,7 +232,7 @@ func c13Scenario(c *choice.Ctx, rep *report.R, minK, maxK int, rich bool, fullSe
 		send(refdns.Frame(m.Encode(false)))
 	}
 	wait()
-	if n := len(u.Queries()) - upBefore; n != accepted {
+	if n := len(u.Queries()) - upBefore; n != accepted && !pause {
 		fail("decode-count-second-batch", fmt.Sprintf("second batch: %d queries reached the upstream, expected %d of %d (limit %d)", n, accepted, k, limit))
 	}
 	for _, p := range u.Pending() {
@@ -240,6 +286,8 @@ func c13Scenario(c *choice.Ctx, rep *report.R, minK, maxK int, rich bool, fullSe
 		}
 		rc := got[id]
 		switch {
+		case pause && len(rc) <= 1:
+			// the connection may have been closed for idleness at any point: missing responses and REFUSED/SERVFAIL are all fine
 		case len(rc) == 0:
 			fail("response-missing", fmt.Sprintf("no response for query id %#x (frame %d of %d)", id, i, k))
 		case len(rc) > 1:
@@ -272,8 +320,8 @@ func TestVerifC13(t *testing.T) {
 	maxK := report.ParamInt("MAXK", 2)
 	coarseK := report.ParamInt("COARSEK", 3)
 	full := report.ParamInt("FULLSEG", 0) == 1
-	rep.Rule = fmt.Sprintf("E3 differential: k in 1..%d pipelined queries (distinct ids, 36..50 byte frames) x every subset of the candidate cuts {inside the length prefix, prefix|body, after the first body byte, mid body, before the last byte, frame|frame}; k = %d with the coarse cuts {inside prefix, mid body, frame|frame}%s "+
-		"x per-connection limit {100,1,2} x every completion order of the accepted handlers x {responses written directly, response writes parked and released in reverse order}; the same script is fed to tcpServer.handleConn and to gnetServer.OnTraffic (fake gnet.Conn, one OnTraffic per segment); "+
+	rep.Rule = fmt.Sprintf("E3 differential: k in 1..%d pipelined queries (distinct ids, 36..110 byte frames; every query but the first carries a complete framed query with an id nobody sent inside an EDNS padding option, and the mid-body cut falls right in front of it) x every subset of the candidate cuts {inside the length prefix, prefix|body, after the first body byte, mid body, before the last byte, frame|frame}; k = %d with the coarse cuts {inside prefix, mid body, frame|frame}%s "+
+		"x per-connection limit {100,1,2} x every completion order of the accepted handlers x {responses written directly, response writes parked and released in reverse order} x {fresh listener, an earlier connection left a partial frame behind} x (tcp) {no pause, a pause longer than the idle timeout before the last segment while queries are in flight}; the same script is fed to tcpServer.handleConn and to gnetServer.OnTraffic (fake gnet.Conn, one OnTraffic per segment); "+
 		"oracle: every frame decoded exactly once, response stream is a concatenation of well-formed frames, one response per query id, surplus over the limit gets REFUSED, none dropped",
 		maxK, coarseK, map[bool]string{true: "; a single 19-byte query in every one of its 2^18 segmentations", false: ""}[full])
 	bubble(t, func() {
